@@ -169,7 +169,7 @@ func TestVerifBounded_C09_Lifecyclers(t *testing.T) {
 			}
 			wg.Wait()
 			for _, id := range ids {
-				if !verifAwaitState(store, id, ACTIVE, 3*time.Second) {
+				if !verifAwaitState(store, id, ACTIVE, 15*time.Second) {
 					report(tag+":never-active", id+" did not become ACTIVE")
 				}
 			}
@@ -259,7 +259,7 @@ func TestVerifBounded_C09_Recovery(t *testing.T) {
 				t.Fatal(err)
 			}
 			_ = services.StartAndAwaitRunning(ctx, lc)
-			if !verifAwaitState(store, "me", ACTIVE, 3*time.Second) {
+			if !verifAwaitState(store, "me", ACTIVE, 15*time.Second) {
 				report(tag+":never-active", "the restarted lifecycler did not reach ACTIVE")
 			}
 			v, _ := store.Get(ctx, "ring")
